@@ -29,7 +29,7 @@ Definition table2 : list (string * (list Z -> list Z)) :=
   ("opPlusEq_Td", f3 opPlusEq_Td) :: ("opMinusEq_Td", f3 opMinusEq_Td) :: ("opMulEq_Td", f3 opMulEq_Td) ::
   ("opPlusEq_Tu8", f2 opPlusEq_Tu8) :: ("opMinusEq_Tu8", f2 opMinusEq_Tu8) :: ("opMulEq_Tu8", f2 opMulEq_Tu8) ::
   ("config", fun _ => config) ::
-  ("logp", f2 logp) :: ("pp", f2 pp) :: ("vect_roundtrip", fun l => ctor_vect (cast_vect (A 0 l)) :: nil) ::
+  ("logp_total", f2 logp) :: ("pp_total", f2 pp) :: ("vect_roundtrip", fun l => ctor_vect (cast_vect (A 0 l)) :: nil) ::
   ("nonZero", fun l => b2z (negb (Z.eqb (nonZero (A 0 l)) 0)) :: nil) ::
   ("compare_I", f2 compare_I) :: ("absCompare_I", f2 absCompare_I) :: ("absCompare_d", f3 absCompare_d) ::
   ("absCompare_f", f3 absCompare_f) :: ("absCompare_u64", f2 absCompare_u64) :: ("absCompare_u32", f2 absCompare_u32) ::
@@ -103,6 +103,18 @@ Fixpoint lookup (name : string) (t : list (string * (list Z -> list Z))) : optio
   | nil => None
   | (n, f) :: r => if String.eqb n name then Some f else lookup name r
   end.
+
+(* the loops of givaro's own have three outcomes (value / exception / does not return): looked up first by the driver *)
+Definition table_o : list (string * (list Z -> outcome)) :=
+  ("logp", fun l => logp_o (A 0 l) (A 1 l)) :: ("pp", fun l => pp_o (A 0 l) (A 1 l)) ::
+  ("logp_fixed", fun l => logp_fixed_o (A 0 l) (A 1 l)) :: ("pp_fixed", fun l => pp_fixed_o (A 0 l) (A 1 l)) :: nil.
+Fixpoint lookup_o (name : string) (t : list (string * (list Z -> outcome))) : option (list Z -> outcome) :=
+  match t with
+  | nil => None
+  | (n, f) :: r => if String.eqb n name then Some f else lookup_o name r
+  end.
+Definition run_o (name : string) (args : list Z) : option outcome :=
+  match lookup_o name table_o with Some f => Some (f args) | None => None end.
 
 Definition run (name : string) (args : list Z) : option (list Z) :=
   match lookup name table with Some f => Some (f args) | None => None end.
